@@ -5,5 +5,6 @@ CONSTANTS Readers = {"r1", "r2", "r3"}
           Sweeps = 2
           Closers = {"closer"}
           LoadMayFail = TRUE
+          HoldAnswers = FALSE
 INVARIANTS UseOnlyLoadedOpen NeverUseClosed ClosedOnlyUnused CleanResults MutexOK
 CHECK_DEADLOCK TRUE
